@@ -7,6 +7,7 @@ import numpy as np
 import blocks_common as B
 import common as C
 import verde as vd
+from props import large as L
 
 ID = "C10"
 TRANSLATED = "blockmean"   # Gen/Utils.lean (variance_to_weights loop body) and Gen/BlockMean.lean (BlockMean.filter and its aggregation helpers, pinned) are regenerated from /repo and bridged to the model in Props/C10.lean
@@ -37,13 +38,27 @@ def mk_v2w(comps, kind, tol=None, which=0):
 
 
 def corpus():
+    return _corpus() + [L.case("blockmean_by_hand", [20011, 1, True], "corpus-long-table"),
+                       L.case("blockmean_by_hand", [21001, 3, False], "corpus-long-table"),
+                       L.case("blockmean_by_hand", [70001, 4, True], "corpus-long-table")]
+
+
+def _corpus():
     es = [0.5, 1.5, 2.5, 3.5, 0.25, 3.75, 0.75]
     ns = [0.5, 0.5, 1.5, 1.5, 0.25, 1.75, 0.75]
     d1 = [1.0, 2.0, 3.0, 4.0, 5.0, 6.0, 8.0]
     d2 = [-1.0, 0.5, 2.5, 7.0, 9.0, 11.0, 13.5]
     w1 = [1.0, 2.0, 0.5, 4.0, 1.0, 1.0, 3.0]
     w2 = [2.0, 1.0, 1.5, 0.25, 3.0, 1.0, 1.0]
-    cs = [mk_bm([es, ns], [7], [d1], None, [0, 4, 0, 2], None, [1.0, 2.0], "spacing", False, True, False, "corpus-noweights"),
+    # a quiet block (scatter 2**-20) among blocks a long way apart in value: the weights are relative to the smallest positive BLOCK variance,
+    # however small it is next to the spread of the whole dataset (and the other way round: tiny data overall)
+    qe, qn = [0.25, 0.75, 1.25, 1.75, 2.25, 2.75], [0.5] * 6
+    qd = [-2.0 ** -20, 2.0 ** -20, 131072.0, 131073.0, -131072.0, -131074.0]
+    cs = [mk_bm([qe, qn], [6], [qd], None, [0, 3, 0, 1], None, [1.0, 1.0], "spacing", False, True, False, "corpus-quiet-block"),
+          mk_bm([qe, qn], [6], [qd, [2.0 ** -30 * v for v in (1.0, 3.0, 2.0, 2.5, -1.0, 7.0)]], [[1.0, 1.0, 2.0, 2.0, 0.5, 0.5], [1.0] * 6], [0, 3, 0, 1], None,
+                [1.0, 1.0], "spacing", False, True, False, "corpus-quiet-block"),
+          mk_bm([qe, qn], [6], [[2.0 ** -30 * v for v in (1.0, 3.0, 2.0, 2.5, -1.0, 7.0)]], None, [0, 3, 0, 1], None, [1.0, 1.0], "spacing", True, True, False,
+                "corpus-quiet-block")] + [mk_bm([es, ns], [7], [d1], None, [0, 4, 0, 2], None, [1.0, 2.0], "spacing", False, True, False, "corpus-noweights"),
           mk_bm([es, ns], [7], [d1, d2], [w1, w2], [0, 4, 0, 2], None, [1.0, 2.0], "spacing", False, True, True, "corpus-uncertainty"),
           mk_bm([es, ns], [7], [d1, d2], [w1, w2], [0, 4, 0, 2], None, [1.0, 2.0], "spacing", True, True, False, "corpus-weighted-variance"),
           mk_bm([es, ns], [7], [d1], None, [0, 4, 0, 2], None, [1.0, 2.0], "spacing", False, True, True, "corpus-uncertainty-noweights"),
@@ -113,6 +128,9 @@ def generate(rng, tier):
 
 
 def impl(case):
+    if case["fn"] == "large":
+        r = C.call(L.run, case["args"])
+        return r if C.is_err(r) else ["large", r]
     a = case["args"]
     if case["fn"] == "v2w":
         comps, tol, which = a
@@ -172,6 +190,8 @@ def impl(case):
 
 
 def compare(case, io, mo):
+    if case["fn"] == "large":
+        return "diff:implementation failed: " + io[1] if C.is_err(io) else "ok"
     r = C.std_compare(io, mo, tol=1e-10)
     if r != "ok" and case["fn"] == "block_mean":
         a = case["args"]
@@ -190,6 +210,8 @@ def _v2w_expected(var, tol=C.fq(1e-15)):
 
 
 def oracle(case, io):
+    if case["fn"] == "large":
+        return (io[1] or None) if not C.is_err(io) else "failed on a large input: " + io[1]
     a = case["args"]
     if case["fn"] == "v2w":
         if C.is_err(io):
@@ -257,6 +279,8 @@ def oracle(case, io):
 
 
 def nontrivial(case, io):
+    if case["fn"] == "large":
+        return not C.is_err(io)
     if C.is_err(io):
         return False
     return len(io) >= 2 if case["fn"] == "v2w" else len(io[2][0]) >= 2
